@@ -35,13 +35,13 @@ def gen_level(rng, idx, with_vars=True, p=0.25):
             lv[k] = s02.value_for(k, idx % 7, rng, idx)
     if with_vars:
         if rng.random() < p:
-            lv['cores'] = rng.choice([[1, 2], [2, '2'], ['4'], [idx + 1], ['c%d' % idx, 3], [0, 1], ['0', 0, '']])
+            lv['cores'] = rng.choice([[1, 2], [2, '2'], ['4'], [idx + 1], ['c%d' % idx, 3], [0, 1], ['0', 0, ''], []])
         if rng.random() < p:
-            lv['input_sizes'] = rng.choice([[10, 20], [''], ['', 5], ['big'], [idx], [0, 10], ['0', '', 0]])
+            lv['input_sizes'] = rng.choice([[10, 20], [''], ['', 5], ['big'], [idx], [0, 10], ['0', '', 0], []])
         if rng.random() < p:
-            lv['variable_values'] = rng.choice([['a', 'b'], [''], ['v%d' % idx], [7, '7'], [0, 1], ['', 0, '0']])
+            lv['variable_values'] = rng.choice([['a', 'b'], [''], ['v%d' % idx], [7, '7'], [0, 1], ['', 0, '0'], []])
         if rng.random() < p:
-            lv['tags'] = rng.choice([['tagA'], ['tagA', 'tagB'], ['tagB', 'x%d' % idx], [5], [0, 'tagA'], ['', 'tagB']])
+            lv['tags'] = rng.choice([['tagA'], ['tagA', 'tagB'], ['tagB', 'x%d' % idx], [5], [0, 'tagA'], ['', 'tagB'], []])
     return lv
 
 
